@@ -465,7 +465,8 @@ TieGroups ==
 \* C12: nothing that is reported (constraint line or alternative in a comment) is below the acceptance threshold:
 \* at threshold 1 only what all instances have remains
 C12Below(obs) == IF \E f \in Facts(obs) : f[1] \in Keys /\ ~FreqOK(f[6], CC(f[1]), cfg.thr) THEN {"C12.belowthreshold"} ELSE {}
-OutsideTies(facts) == {f \in facts : <<f[1], f[2], f[3]>> \notin TieGroups}
+OutsideTiesOf(facts, tg) == {f \in facts : <<f[1], f[2], f[3]>> \notin tg}
+OutsideTies(facts) == LET tg == TieGroups IN OutsideTiesOf(facts, tg)
 
 \* ---- schema of the operational model in the same shape as an observed one
 OpObs(out) == {[key |-> k, n |-> Cardinality(OpInst(TrackF, k)),
